@@ -1352,8 +1352,19 @@ Inductive rd_script : list N -> Prop :=
 | RS_exit d c rest : rd_script (8 :: d :: c :: rest)
 | RS_fail k rest : rd_script (9 :: k :: rest).
 
-Definition hr_post (a0 : ast) (u0 : bytes) (r : rstate) (w : world) (x : res ((N * N + N) * rstate)) : Prop :=
-  exists os,
+(* the observations are those of the script's operations, in order (a prefix, if the task stops early) *)
+Inductive obs_of : list N -> list obs -> Prop :=
+| OO_nil script : obs_of script []
+| OO_read n rest c b t : obs_of rest t -> obs_of (1 :: n :: rest) (ORead c b :: t)
+| OO_read_err n rest k l t : obs_of rest t -> obs_of (1 :: n :: rest) (OReadErr k l :: t)
+| OO_all rest k acc l t : obs_of rest t -> obs_of (2 :: rest) (OAll k acc l :: t)
+| OO_fill k rest c seen t : obs_of rest t -> obs_of (3 :: k :: rest) (OFill c seen :: t)
+| OO_fill_err k rest e t : obs_of rest t -> obs_of (3 :: k :: rest) (OFillErr e :: t)
+| OO_set s rest code t : obs_of rest t -> obs_of (4 :: s :: rest) (OSet code :: t)
+| OO_wr rest e wr code t : obs_of rest t -> obs_of (5 :: rest) (OWr e wr code :: t).
+
+Definition hr_post (script : list N) (a0 : ast) (u0 : bytes) (r : rstate) (w : world) (x : res ((N * N + N) * rstate)) : Prop :=
+  exists os, obs_of script os /\
   match x with
   | Ok (st, r') w' =>
       (exists fin, events w' = fin :: flat_map obs_events (rev os) ++ events w) /\ pinv (rsp r') /\
@@ -1419,13 +1430,14 @@ Proof.
   vm_compute in H1; try discriminate H1; vm_compute in H2; discriminate H2.
 Qed.
 
-Lemma hr_post_cons a0 u0 r w o r1 w1 x :
+Lemma hr_post_cons script rest a0 u0 r w o r1 w1 x :
+  (forall t, obs_of rest t -> obs_of script (o :: t)) ->
   events w1 = obs_events o ++ events w -> sreq (rsp r1) = sreq (rsp r) ->
   (forall t T', tlaw a0 u0 (stream (rsp r1)) (K (abs (rsp r1)) (remaining w1)) t T' ->
                 tlaw a0 u0 (stream (rsp r)) (K (abs (rsp r)) (remaining w)) (o :: t) T') ->
-  hr_post a0 u0 r1 w1 x -> hr_post a0 u0 r w x.
+  hr_post rest a0 u0 r1 w1 x -> hr_post script a0 u0 r w x.
 Proof.
-  intros Hev Hq HT [os H]. exists (o :: os).
+  intros Hoo Hev Hq HT [os [Ho H]]. exists (o :: os). split; [apply Hoo; exact Ho|].
   assert (Hfm : flat_map obs_events (rev (o :: os)) ++ events w = flat_map obs_events (rev os) ++ events w1).
   { cbn [rev]. rewrite flat_map_app. cbn [flat_map]. rewrite app_nil_r, <- app_assoc, Hev. reflexivity. }
   destruct x as [[st r'] w'|ox w'].
@@ -1484,43 +1496,43 @@ Qed.
    stream (K); a stream selected later delivers its content as of the start of the handler (F) *)
 Theorem run_handler_reads a0 u0 script : rd_script script ->
   forall f r w, pinv (rsp r) -> bytes_ok (remaining w) -> later_kept a0 u0 r w ->
-  hr_post a0 u0 r w (run_handler maxc f script r w).
+  hr_post script a0 u0 r w (run_handler maxc f script r w).
 Proof.
   induction 1 as [|n rest H IH|rest H IH|k rest H IH|s rest H IH|rest H IH|d c rest|k rest];
     intros f r w Hinv Hrem J;
-    (destruct f as [|f]; [exists []; cbn [run_handler rev flat_map app tlaw]; split; [reflexivity|eexists; reflexivity]|]);
+    (destruct f as [|f]; [exists []; split; [constructor|]; cbn [run_handler rev flat_map app tlaw]; split; [reflexivity|eexists; reflexivity]|]);
     cbn [run_handler].
-  - exists []. split; [exists [8]; reflexivity|]. split; [exact Hinv|]. split; reflexivity.
+  - exists []. split; [constructor|]. split; [exists [8]; reflexivity|]. split; [exact Hinv|]. split; reflexivity.
   - (* 1 n *)
     pose proof (await_input_reads (io_fuel w 0) (Some n) r w Hinv Hrem) as AI.
     destruct (await_input maxc (io_fuel w 0) (Some n) r w) as [[[[c b]|k] r1] w1|o w1]; cbn [ai_post] in AI.
     + destruct AI as (dl & A & C & _). cbn [pi_case] in C. destruct C as (-> & _).
-      apply (hr_post_cons a0 u0 r w (ORead c b) r1 (w_ev (w_ev w1 [1; 1; c]) b)).
+      apply (hr_post_cons _ rest a0 u0 r w (ORead c b) r1 (w_ev (w_ev w1 [1; 1; c]) b)); [intros t Ht; constructor; exact Ht| | | |].
       * cbn [obs_events w_ev events app]. rewrite (ac_ev _ _ _ _ _ _ A). reflexivity.
       * apply (ac_req _ _ _ _ _ _ A).
       * intros t T' HT. rewrite (ac_stream _ _ _ _ _ _ A) in HT.
         apply (tlaw_bytes a0 u0 _ _ _ (K (abs (rsp r1)) (remaining w1))); [reflexivity|exact (ac_K _ _ _ _ _ _ A)|exact HT].
       * apply IH; [apply (ac_inv _ _ _ _ _ _ A)|exact (acct_bytes_ok _ _ _ _ _ _ A Hrem)|exact (later_kept_acct _ _ _ _ _ _ _ A J)].
     + destruct AI as (dl & A & C & _).
-      apply (hr_post_cons a0 u0 r w (OReadErr k dl) r1 (w_ev (w_ev w1 [1; 0; k]) [])).
+      apply (hr_post_cons _ rest a0 u0 r w (OReadErr k dl) r1 (w_ev (w_ev w1 [1; 0; k]) [])); [intros t Ht; constructor; exact Ht| | | |].
       * cbn [obs_events w_ev events app]. rewrite (ac_ev _ _ _ _ _ _ A). reflexivity.
       * apply (ac_req _ _ _ _ _ _ A).
       * intros t T' HT. rewrite (ac_stream _ _ _ _ _ _ A) in HT.
         apply (tlaw_bytes a0 u0 _ _ _ (K (abs (rsp r1)) (remaining w1))); [reflexivity|exact (ac_K _ _ _ _ _ _ A)|exact HT].
       * apply IH; [apply (ac_inv _ _ _ _ _ _ A)|exact (acct_bytes_ok _ _ _ _ _ _ A Hrem)|exact (later_kept_acct _ _ _ _ _ _ _ A J)].
-    + destruct AI as (r1 & A & _). exists []. cbn [rev flat_map app tlaw].
+    + destruct AI as (r1 & A & _). exists []. split; [constructor|]. cbn [rev flat_map app tlaw].
       split; [apply (ac_ev _ _ _ _ _ _ A)|eexists; reflexivity].
   - (* 2 *)
     match goal with |- context [read_all maxc ?fu [] r w] =>
       pose proof (read_all_reads fu [] r w Hinv Hrem) as RA; destruct (read_all maxc fu [] r w) as [[[k acc] r1] w1|o w1] end.
     + destruct RA as (bs & lost & H1 & A & _). cbn [app] in H1. subst acc.
-      apply (hr_post_cons a0 u0 r w (OAll k bs lost) r1 (w_ev (w_ev w1 [2; k]) bs)).
+      apply (hr_post_cons _ rest a0 u0 r w (OAll k bs lost) r1 (w_ev (w_ev w1 [2; k]) bs)); [intros t Ht; constructor; exact Ht| | | |].
       * cbn [obs_events w_ev events app]. rewrite (ac_ev _ _ _ _ _ _ A). reflexivity.
       * apply (ac_req _ _ _ _ _ _ A).
       * intros t T' HT. rewrite (ac_stream _ _ _ _ _ _ A) in HT.
         apply (tlaw_bytes a0 u0 _ _ _ (K (abs (rsp r1)) (remaining w1))); [reflexivity|exact (ac_K _ _ _ _ _ _ A)|exact HT].
       * apply IH; [apply (ac_inv _ _ _ _ _ _ A)|exact (acct_bytes_ok _ _ _ _ _ _ A Hrem)|exact (later_kept_acct _ _ _ _ _ _ _ A J)].
-    + destruct RA as (bs & r1 & A). exists []. cbn [rev flat_map app tlaw].
+    + destruct RA as (bs & r1 & A). exists []. split; [constructor|]. cbn [rev flat_map app tlaw].
       split; [apply (ac_ev _ _ _ _ _ _ A)|eexists; reflexivity].
   - (* 3 k *)
     pose proof (await_input_reads (io_fuel w 0) None r w Hinv Hrem) as AI.
@@ -1530,8 +1542,8 @@ Proof.
       pose proof (consume_acct r1 w1 cc (rwriteable r1) (rlock r1) (ac_inv _ _ _ _ _ _ A)) as A2. fold seen in A2.
       replace (N.min cc (len seen)) with cc in A2 by (subst cc; lia).
       pose proof (acct_trans0 _ _ _ _ _ _ _ _ A A2) as A3. cbn [app] in A3.
-      apply (hr_post_cons a0 u0 r w (OFill cc seen) (mkR (consume_stream (rsp r1) cc) (rwriteable r1) (rlock r1))
-               (w_ev (w_ev w1 [3; 1; cc]) seen)).
+      apply (hr_post_cons _ rest a0 u0 r w (OFill cc seen) (mkR (consume_stream (rsp r1) cc) (rwriteable r1) (rlock r1))
+               (w_ev (w_ev w1 [3; 1; cc]) seen)); [intros t Ht; constructor; exact Ht| | | |].
       * cbn [obs_events w_ev events app]. rewrite (ac_ev _ _ _ _ _ _ A). reflexivity.
       * apply (ac_req _ _ _ _ _ _ A3).
       * intros t T' HT. rewrite (ac_stream _ _ _ _ _ _ A3) in HT.
@@ -1541,21 +1553,21 @@ Proof.
       assert (dl = []).
       { cbn [pi_case] in C. destruct C as [(e0 & _ & _ & _ & C4 & _)|[(C1 & _)|(C1 & _)]]; [apply C4; reflexivity|exact C1|exact C1]. }
       subst dl.
-      apply (hr_post_cons a0 u0 r w (OFillErr e) r1 (w_ev (w_ev w1 [3; 0; e]) [])).
+      apply (hr_post_cons _ rest a0 u0 r w (OFillErr e) r1 (w_ev (w_ev w1 [3; 0; e]) [])); [intros t Ht; constructor; exact Ht| | | |].
       * cbn [obs_events w_ev events app]. rewrite (ac_ev _ _ _ _ _ _ A). reflexivity.
       * apply (ac_req _ _ _ _ _ _ A).
       * intros t T' HT. rewrite (ac_stream _ _ _ _ _ _ A) in HT.
         apply (tlaw_bytes a0 u0 _ _ _ (K (abs (rsp r1)) (remaining w1))); [reflexivity|exact (ac_K _ _ _ _ _ _ A)|exact HT].
       * apply IH; [apply (ac_inv _ _ _ _ _ _ A)|exact (acct_bytes_ok _ _ _ _ _ _ A Hrem)|exact (later_kept_acct _ _ _ _ _ _ _ A J)].
-    + destruct AI as (r1 & A & _). exists []. cbn [rev flat_map app tlaw].
+    + destruct AI as (r1 & A & _). exists []. split; [constructor|]. cbn [rev flat_map app tlaw].
       split; [apply (ac_ev _ _ _ _ _ _ A)|eexists; reflexivity].
   - (* 4 s *)
     destruct (set_stream (rsp r) (Some s)) as [p1| |] eqn:ES;
-      try (exists []; cbn [rev flat_map app tlaw]; split; [reflexivity|eexists; reflexivity]).
+      try (exists []; split; [constructor|]; cbn [rev flat_map app tlaw]; split; [reflexivity|eexists; reflexivity]).
     destruct (set_stream_step _ _ _ Hinv ES) as (I1 & Q1 & S1 & _).
     destruct (switch_law a0 u0 r w (Some s) p1 Hinv J ES) as [J1 SW].
-    apply (hr_post_cons a0 u0 r w (OSet (stream_code (stream p1))) (mkR p1 (rwriteable r) (rlock r))
-             (w_ev w [4; stream_code (stream p1)])).
+    apply (hr_post_cons _ rest a0 u0 r w (OSet (stream_code (stream p1))) (mkR p1 (rwriteable r) (rlock r))
+             (w_ev w [4; stream_code (stream p1)])); [intros t Ht; constructor; exact Ht| | | |].
     + reflexivity.
     + exact Q1.
     + intros t T' HT. cbn [tlaw obs_switch]. rewrite (code_stream_code p1 (pinv_stream_ok _ I1)), S1.
@@ -1563,12 +1575,13 @@ Proof.
     + apply IH; [exact I1|exact Hrem|apply J1].
   - (* 5 *)
     destruct (do_writeable maxc r w) as [[e r1] w1|o w1] eqn:ED.
-    2:{ exists []. cbn [rev flat_map app tlaw]. split; [apply (do_writeable_halt_events _ _ _ _ Hinv Hrem ED)|eexists; reflexivity]. }
+    2:{ exists []. split; [constructor|]. cbn [rev flat_map app tlaw]. split; [apply (do_writeable_halt_events _ _ _ _ Hinv Hrem ED)|eexists; reflexivity]. }
     destruct (do_writeable_gate r w e r1 w1 Hinv Hrem ED) as [G1 G2].
     set (o := OWr (match e with None => 0 | Some k => k end) (if rwriteable r1 then 1 else 0) (stream_code (stream (rsp r1)))).
     destruct (rwriteable r) eqn:Ewr.
     + destruct (G1 eq_refl) as (-> & -> & ->).
-      apply (hr_post_cons a0 u0 r w o r (w_ev w [5; 0; if rwriteable r then 1 else 0; stream_code (stream (rsp r))])).
+      apply (hr_post_cons _ rest a0 u0 r w o r (w_ev w [5; 0; if rwriteable r then 1 else 0; stream_code (stream (rsp r))]));
+        [intros t Ht; constructor; exact Ht| | | |].
       * reflexivity.
       * reflexivity.
       * intros t T' HT. subst o. cbn [tlaw obs_switch]. rewrite (code_stream_code _ (pinv_stream_ok _ Hinv)), optN_eqb_refl. exact HT.
@@ -1576,8 +1589,8 @@ Proof.
     + destruct (G2 eq_refl) as (p1 & ES & S & Q & _ & A & _). cbv zeta in *.
       destruct (switch_law a0 u0 r w _ p1 Hinv J ES) as [J1 SW].
       pose proof (ac_K _ _ _ _ _ _ A) as HK. cbn [app rsp] in HK.
-      apply (hr_post_cons a0 u0 r w o r1 (w_ev w1 [5; match e with None => 0 | Some k => k end; if rwriteable r1 then 1 else 0;
-                                                     stream_code (stream (rsp r1))])).
+      apply (hr_post_cons _ rest a0 u0 r w o r1 (w_ev w1 [5; match e with None => 0 | Some k => k end; if rwriteable r1 then 1 else 0;
+                                                     stream_code (stream (rsp r1))])); [intros t Ht; constructor; exact Ht| | | |].
       * cbn [obs_events w_ev events app o]. rewrite (ac_ev _ _ _ _ _ _ A). reflexivity.
       * exact Q.
       * intros t T' HT. subst o. cbn [tlaw obs_switch].
@@ -1585,8 +1598,8 @@ Proof.
         apply SW. rewrite S in HT. rewrite HK. exact HT.
       * apply IH; [apply (ac_inv _ _ _ _ _ _ A)|exact (acct_bytes_ok _ _ _ _ _ _ A Hrem)|].
         exact (later_kept_acct _ _ _ _ _ _ _ A (J1 false (rlock r))).
-  - exists []. split; [exists [8]; reflexivity|]. split; [exact Hinv|]. split; reflexivity.
-  - exists []. split; [exists [9]; reflexivity|]. split; [exact Hinv|]. split; reflexivity.
+  - exists []. split; [constructor|]. split; [exists [8]; reflexivity|]. split; [exact Hinv|]. split; reflexivity.
+  - exists []. split; [constructor|]. split; [exists [9]; reflexivity|]. split; [exact Hinv|]. split; reflexivity.
 Qed.
 
 End Reads.
